@@ -86,6 +86,9 @@ type nrSim struct {
 	noHold    bool
 	settleAt  time.Time
 	nrec      int
+
+	tagNoMetric, tagMemReq bool
+	deferred               *[3]string
 }
 
 var nrCtx = context.Background()
@@ -1075,5 +1078,8 @@ func (s *nrSim) finish() {
 		}
 		r.Event("final %s %s", n.name, strings.Join(parts, " "))
 	}
-	r.Sample("reconciles=%d sim=%s", s.nrec, time.Since(s.settleAt))
+	r.Sample("reconciles=%d settle=%s", s.nrec, time.Since(s.settleAt))
+	if d := s.deferred; d != nil {
+		r.Fail(d[0], d[1], "%s", d[2])
+	}
 }
